@@ -977,6 +977,7 @@ SET_OF_decode_uper(const asn_codec_ctx_t *opt_codec_ctx,
 			void *ptr = 0;
 			size_t moved_before = pd->moved;
 			ASN_DEBUG("SET OF %s decoding", elm->type->name);
+			if(!elm->type->op->uper_decoder) ASN__DECODE_FAILED;
 			rv = elm->type->op->uper_decoder(opt_codec_ctx, elm->type,
 				elm->encoding_constraints.per_constraints, &ptr, pd);
 			ASN_DEBUG("%s SET OF %s decoded %d, %p",
